@@ -344,6 +344,29 @@ pub fn base_spec(shape: usize, packaging: Packaging, comp: Comp, seed: u32) -> C
         };
         return spec;
     }
+    if shape == 6 || shape == 7 {
+        // "exact KiB blocks": a content-info table of 255 (511) records = 1020 (2044) bytes, i.e.
+        // exactly 1 (2) KiB with its CRC, and an entry store whose data block is 255 x 4 (510 x 4)
+        // bytes: block sizes that are exact multiples of the reader's 1 KiB buffer
+        let n = if shape == 6 { 255u32 } else { 511 };
+        let mut spec = base_spec(1, packaging, comp, seed);
+        spec.contents = (0..n).map(|i| c(1 + i % 2, Entropy::Text, if i % 5 == 0 { Hint::Yes } else { Hint::No }, 12000 + i)).collect();
+        spec.extra_packs.clear();
+        let ne = if shape == 6 { 255u64 } else { 510 };
+        spec.dir = DirSpec {
+            vstores: vec![],
+            estores: vec![EStoreSpec {
+                common: vec![PropSpec { kind: PKind::UInt, constant: false }],
+                variants: vec![],
+                sort: vec![],
+                entries: (0..ne).map(|i| RawEntry { variant: 0, vals: vec![rv(0x0100_0000 + i * 0x0001_0101, 0, 0)] }).collect(),
+                windows: vec![Win::Whole],
+            }],
+            linked: false,
+            index_meta: false,
+        };
+        return spec;
+    }
     if shape == 4 {
         // content-info table above 64 KiB
         let mut spec = base_spec(1, packaging, comp, seed);
@@ -442,6 +465,61 @@ pub fn make_base(name: &str, spec: &ContainerSpec, scratch: &Path, other: Vec<u8
         maps,
         packaging: spec.packaging,
         comp: spec.comp,
+        pristine: BTreeMap::new(),
+        other,
+        targeted: vec![],
+        concurrent: 0,
+    })
+}
+
+/// Three LOOSE pack files written by the low-level creators (what the repository's own tests do):
+/// `c.jbkc` a bare content pack (`ncontents` contents; 0 = the content-info table and the
+/// cluster table are zero-length blocks), `d.jbkd` a bare directory pack, `a.jbk` a bare manifest
+/// pack recording the two others by file name. Read through Container::new AND, file by file,
+/// through ContentPack/DirectoryPack/ManifestPack::new on a whole-file reader.
+pub fn make_bare_packs_base(name: &str, comp: Comp, seed: u32, ncontents: u32, scratch: &Path, other: Vec<u8>) -> Result<Base, Failure> {
+    use jubako as jbk;
+    let dir = scratch.join(format!("base-{name}"));
+    let _ = std::fs::remove_dir_all(&dir);
+    std::fs::create_dir_all(&dir).unwrap();
+    let io = |e: std::io::Error| Failure::new("create-error", format!("bare-packs base: {e}"));
+    let jb = |e: jbk::creator::Error| Failure::new("create-error", format!("bare-packs base: {e}"));
+    let cpath = jbk::Utf8PathBuf::from_path_buf(dir.join("c.jbkc")).unwrap();
+    let mut cp = jbk::creator::ContentPackCreator::new(&cpath, jbk::PackId::from(1), vendor(), Default::default(), comp.to_jbk()).map_err(io)?;
+    let mut addresses: Vec<(u16, u32)> = vec![];
+    for i in 0..ncontents {
+        let b = content_bytes(seed ^ (7000 + i), if i == 2 { 0 } else { 20 + 150 * (i as usize % 5) }, if i % 2 == 0 { Entropy::Text } else { Entropy::High });
+        let a = cp.add_content(Box::new(std::io::Cursor::new(b)), if i % 2 == 0 { jbk::creator::CompHint::Yes } else { jbk::creator::CompHint::No }).map_err(io)?;
+        addresses.push((a.pack_id.into_u16(), a.content_id.into_u32()));
+    }
+    let (_, cdata) = cp.finalize().map_err(io)?;
+    let dspec = if ncontents == 0 { DirSpec { vstores: vec![], estores: vec![], linked: false, index_meta: false } } else { base_spec(1, Packaging::OneFile, comp, seed).dir };
+    let dmodel = build_model(&dspec, &addresses);
+    let mut dp = jbk::creator::DirectoryPackCreator::new(jbk::PackId::from(0), vendor(), Default::default());
+    build_dir(&dmodel).install(&mut dp);
+    let fin = dp.finalize().map_err(io)?;
+    let mut dfile = std::fs::OpenOptions::new().read(true).write(true).create(true).truncate(true).open(dir.join("d.jbkd")).map_err(io)?;
+    let ddata = fin.write(&mut dfile).map_err(jb)?;
+    drop(dfile);
+    let mut manifest = jbk::creator::ManifestPackCreator::new(vendor(), Default::default());
+    manifest.add_pack(ddata, "d.jbkd");
+    manifest.add_pack(cdata, "c.jbkc");
+    let mut mfile = std::fs::OpenOptions::new().read(true).write(true).create(true).truncate(true).open(dir.join("a.jbk")).map_err(io)?;
+    manifest.finalize(&mut mfile).map_err(jb)?;
+    drop(mfile);
+    let files: Vec<String> = vec!["a.jbk".into(), "c.jbkc".into(), "d.jbkd".into()];
+    let data: Vec<Vec<u8>> = files.iter().map(|f| std::fs::read(dir.join(f)).unwrap()).collect();
+    let maps = data.iter().map(|d| indep::decode_file(d).ok()).collect();
+    Ok(Base {
+        name: name.to_string(),
+        files,
+        main: "a.jbk".into(),
+        index_names: index_names(&dmodel),
+        addresses,
+        data,
+        maps,
+        packaging: Packaging::NoConcat,
+        comp,
         pristine: BTreeMap::new(),
         other,
         targeted: vec![],
@@ -796,6 +874,14 @@ pub fn judge_c05(pristine: &FDump, d: &FDump) -> Option<Failure> {
             }
         }
     }
+    // loose pack files opened directly on a whole-file reader: same structure, or an error
+    for (k, p) in &pristine.bare {
+        if let (Some(Acc::Ok(a)), Acc::Ok(b)) = (d.bare.get(k), p) {
+            if a != b {
+                return Some(Failure::new("silent-bare-pack-structure", format!("{k} opened on a whole-file reader describes {a:?} instead of {b:?}")));
+            }
+        }
+    }
     if !matches!(d.open, Some(Acc::Ok(()))) {
         return None; // opening failed with an error
     }
@@ -1128,6 +1214,27 @@ pub fn check_cmd(id: &str, tier: Tier) -> i32 {
             Ok(b) => bases.push(b),
             Err(f) => {
                 eprintln!("INCONCLUSIVE property={id}: cannot build the multi-pack base: {} {}", f.sig, f.msg);
+                return 2;
+            }
+        }
+    }
+    // loose pack files of the low-level creators, opened as a container and one by one on
+    // whole-file readers (one with an EMPTY content pack: zero-length tables)
+    for (k, (c, n)) in [(Comp::None, 5u32), (Comp::Zstd(3), 5), (Comp::None, 0)].iter().enumerate() {
+        match make_bare_packs_base(&format!("P-bare-{}-{n}contents", c.name()), *c, s32 ^ (k as u32 + 11), *n, scratch.path(), other.clone()) {
+            Ok(b) => bases.push(b),
+            Err(f) => {
+                eprintln!("INCONCLUSIVE property={id}: cannot build the bare-packs base: {} {}", f.sig, f.msg);
+                return 2;
+            }
+        }
+    }
+    // tables and stores whose blocks are exact multiples of 1 KiB
+    for (name, spec) in [("K-OneFile-none-255", base_spec(6, Packaging::OneFile, Comp::None, s32)), ("K-TwoFiles-lz4-511", base_spec(7, Packaging::TwoFiles, Comp::Lz4(3), s32))] {
+        match make_base(name, &spec, scratch.path(), other.clone()) {
+            Ok(b) => bases.push(b),
+            Err(f) => {
+                eprintln!("INCONCLUSIVE property={id}: cannot build base {name}: {} {}", f.sig, f.msg);
                 return 2;
             }
         }
@@ -1555,8 +1662,8 @@ fn finish_faults(id: &str, tier: Tier, seed: u64, t0: Instant, mut summary: RunS
     summary.extra.insert("exhaustive".into(), serde_json::json!(false));
     let rule = match id {
         "C04" => "enumeration: for every base container (small containers of two shapes x packagings x compressions), for every pack found by the independent decoder, EVERY byte position of its checked range [start, start+checkInfoPos) and of its check block x masks {0x01,0x80,0xFF}, plus seeded scripts of 2-8 simultaneous xor/zero/overwrite edits inside the range; executed by reader children. Oracle: pristine container: every pack check, every file check and Container::check are Ok(true); altered: the check of that pack (by uuid) and Container::check answer Ok(false) or Err, never Ok(true). Non-trivial = the reader child returned a value (child deaths are C06's domain and excluded, counted under outcome:*); distinct by (base, structure kind hit, edit kind, outcome, profile).",
-        "C05" => "enumeration: for every base container, EVERY byte position of every file x masks {0x01,0x80,0xFF}, plus seeded same-length scripts (zeroed / overwritten ranges of 2..512 bytes and xor, 1-4 edits, first position stratified per structure through the independent decoder's file map). Oracle: the reader child's access-by-access dump (pack count, per-pack content counts, index headers, every entry's variant and values, content sizes) equals the pristine dump or that access (or an enclosing one) returned an error; content bytes may differ only if Container::check then answers Ok(false)/Err. Non-trivial = the alteration hits a structure the dump path reads (everything but pack tails / foreign prefix) and the child returned a value; distinct by (base, structure kind hit, edit kind, outcome, profile). Bases include hand-assembled containers in three layouts (one file; two content packs sharing one external file; a pack stored twice in the container pack), every pack carrying free data in the manifest; the child also opens the manifest pack on its own and reports the pack list and every pack's free data by id and by uuid, compared like every other structural answer.",
-        _ => "enumeration: for every base container (all four compressions, one-file and two-file packagings), for every file: EVERY truncation length, EVERY byte position x masks {0x01,0xFF}, whole-file replacement {empty, random, text, 'jbkC'+random, another valid container} x 7 sizes, appended garbage x 7 sizes, seeded range scripts (zero/overwrite 2..512 bytes, optionally combined with truncation and appended garbage), in BOTH build profiles (debug-assertions+overflow-checks, and release). The reader child opens, dumps everything, streams every content whole and through 7-byte reads, runs every check. Oracle: outcome is a value or error value; panic (exit 101), abort (SIGABRT), any signal, blocked forever (all threads asleep, no cpu over 1 s) and no-progress (decode loop publishes the same length 1000 times) are violations; a wall-clock timeout is inconclusive. Non-trivial = the outcome differs from the pristine dump (the damage was observed); distinct by (base, structure kind hit, edit kind, outcome, profile).",
+        "C05" => "enumeration: for every base container, EVERY byte position of every file x masks {0x01,0x80,0xFF}, plus seeded same-length scripts (zeroed / overwritten ranges of 2..512 bytes and xor, 1-4 edits, first position stratified per structure through the independent decoder's file map). Oracle: the reader child's access-by-access dump (pack count, per-pack content counts, index headers, every entry's variant and values, content sizes) equals the pristine dump or that access (or an enclosing one) returned an error; content bytes may differ only if Container::check then answers Ok(false)/Err. Non-trivial = the alteration hits a structure the dump path reads (everything but pack tails / foreign prefix) and the child returned a value; distinct by (base, structure kind hit, edit kind, outcome, profile). Bases include hand-assembled containers in three layouts (one file; two content packs sharing one external file; a pack stored twice in the container pack), every pack carrying free data in the manifest; the child also opens the manifest pack on its own and reports the pack list and every pack's free data by id and by uuid, compared like every other structural answer. Bases K: content-info table and entry-store data of exactly 1 KiB / 2 KiB with their CRC (255 and 511 contents). Bases P: loose content, directory and manifest pack files written by the low-level creators (one with an empty content pack); for every file of every base the child also calls ContentPack::new, DirectoryPack::new and ManifestPack::new on a WHOLE-FILE reader (no cut to the declared pack size first) and reports a structural digest (counts, sizes, locations) or the error, compared like the rest.",
+        _ => "enumeration: for every base container (all four compressions, one-file and two-file packagings), for every file: EVERY truncation length, EVERY byte position x masks {0x01,0xFF}, whole-file replacement {empty, random, text, 'jbkC'+random, another valid container} x 7 sizes, appended garbage x 7 sizes, seeded range scripts (zero/overwrite 2..512 bytes, optionally combined with truncation and appended garbage), in BOTH build profiles (debug-assertions+overflow-checks, and release). The reader child opens, dumps everything, streams every content whole and through 7-byte reads, runs every check. Oracle: outcome is a value or error value; panic (exit 101), abort (SIGABRT), any signal, blocked forever (all threads asleep, no cpu over 1 s) and no-progress (decode loop publishes the same length 1000 times) are violations; a wall-clock timeout is inconclusive. Non-trivial = the outcome differs from the pristine dump (the damage was observed); distinct by (base, structure kind hit, edit kind, outcome, profile). Bases P (loose pack files of the low-level creators, one with an EMPTY content pack: zero-length tables) and K (blocks that are exact multiples of 1 KiB); every file of every base is also handed as a whole-file reader to ContentPack::new, DirectoryPack::new and ManifestPack::new (what custom locators and the repository's own tests do).",
     };
     write_evidence(id, "fault_enumeration", tier, seed, rule, vec!["block transplants and re-checksummed content are outside the claim and not generated".into(), "positions are classified through the independent decoder's map of the pristine file".into()], t0, &summary);
     if !summary.violations.is_empty() {
